@@ -219,7 +219,10 @@ def init : Sys := {}
 
 /-! ### (c) callHandler -/
 
-inductive Dial | ok | refused | hsFail | silent
+/-- what dial + handshake does: `silent` = the peer accepts the TCP connection and never sends its ID
+(the handshake read does not return by itself); `blackhole` = the host never answers the SYN (down,
+firewall DROP: the dial itself does not return by itself — the kernel gives up after minutes). -/
+inductive Dial | ok | refused | hsFail | silent | blackhole
   deriving DecidableEq, Repr
 
 structure Handler where
@@ -239,8 +242,10 @@ inductive HOut
   deriving DecidableEq, Repr
 
 /-- `deadline = false`: the code as it was (no bound on the handshake read);
-`deadline = true`: the handshake read is bounded, a silent peer is a failed handshake. -/
-def hstep (deadline : Bool) (h : Handler) : HEv → Handler × List HOut
+`deadline = true`: the handshake read is bounded, a silent peer is a failed handshake.
+`dialB = false`: the code as it was (bare `net.Dial`: a black-holed peer keeps the loop inside the dial);
+`dialB = true`: the dial is bounded, a black-holed peer is a failed dial. -/
+def hstep (deadline dialB : Bool) (h : Handler) : HEv → Handler × List HOut
   | .call i peer d =>
     if h.wedged then (h, []) else
     if h.clients.contains peer then (h, [.handed i peer]) else
@@ -249,15 +254,16 @@ def hstep (deadline : Bool) (h : Handler) : HEv → Handler × List HOut
     | .refused => (h, [.failed i])
     | .hsFail => (h, [.failed i])
     | .silent => if deadline then (h, [.failed i]) else ({ h with wedged := true }, [])
+    | .blackhole => if dialB then (h, [.failed i]) else ({ h with wedged := true }, [])
   | .remove peer =>
     if h.wedged then (h, []) else ({ h with clients := h.clients.filter (fun p => !(p == peer)) }, [])
   | .tick => (h, [])
 
-def hrun (deadline : Bool) : Handler → List HEv → Handler × List HOut
+def hrun (deadline dialB : Bool) : Handler → List HEv → Handler × List HOut
   | h, [] => (h, [])
   | h, e :: es =>
-    let (h1, o1) := hstep deadline h e
-    let (h2, o2) := hrun deadline h1 es
+    let (h1, o1) := hstep deadline dialB h e
+    let (h2, o2) := hrun deadline dialB h1 es
     (h2, o1 ++ o2)
 
 
@@ -378,6 +384,8 @@ def stepObj (ops : String) : String :=
 
 inductive Act
   | reply | drop | unknownFirst | dup | late | race
+  | badGood   -- the peer answers with a reply whose signature does not verify, then with the good one
+  | badOnly   -- … with a reply whose signature does not verify and nothing else; the caller then cancels
   deriving DecidableEq, Repr
 
 def parseAct (a : String) : Option Act :=
@@ -391,6 +399,8 @@ def parseAct (a : String) : Option Act :=
   | "X" => some .late
   | "C" => some .race
   | "K" => some .race
+  | "S" => some .badGood
+  | "B" => some .badOnly
   | _ => none
 
 /-- peer kind → (what dial + handshake does, whether the peer is probed afterwards) -/
@@ -400,6 +410,7 @@ def parseDial (p : String) : Option (Dial × Bool) :=
   | "close" => some (.ok, false)
   | "refuse" => some (.refused, false)
   | "silent" => some (.silent, false)
+  | "blackhole" => some (.blackhole, false)
   | _ => none
 
 def parseReq (r : String) : Option (Nat × Act) :=
@@ -412,21 +423,26 @@ def parseReq (r : String) : Option (Nat × Act) :=
 def ownPayload (i : Nat) : Nat := 7 * i + 3
 
 /-- events on the connection for one handed request `j` (its index on that connection) with global id `g` -/
-def actEvents (j g : Nat) (nonce : Nat) : Act → List Ev
+def actEvents (verify : Bool) (j g : Nat) (nonce : Nat) : Act → List Ev
   | .reply => [.reply nonce (ownPayload g) false false]
   | .drop => [.cancel j, .waiterCtx j]
   | .unknownFirst => [.reply (nonce + 100000) (ownPayload g + 1) false false, .reply nonce (ownPayload g) false false]
   | .dup => [.reply nonce (ownPayload g) false false, .reply nonce (ownPayload g + 1) false false]
   | .late => [.cancel j, .waiterCtx j, .reply nonce (ownPayload g) false false]
   | .race => []
+  -- a frame whose signature does not verify is dropped by decodePipe (`verify`): it is no reply event
+  | .badGood => (if verify then [] else [.reply nonce (ownPayload g + 2) false false]) ++
+      [.reply nonce (ownPayload g) false false]
+  | .badOnly => (if verify then [] else [.reply nonce (ownPayload g + 2) false false]) ++
+      [.cancel j, .waiterCtx j]
 
 /-- outcome of the requests (global ids `gs`, in order) that were handed to ONE connection -/
-def connOutcomes (gs : List (Nat × Act)) : List (Nat × String) :=
+def connOutcomes (verify : Bool) (gs : List (Nat × Act)) : List (Nat × String) :=
   let sends : List Ev := (List.range gs.length).flatMap fun j =>
     [.create .send 0, .toHandler j, .toSendG j, .enqueue j, .dsend j true, .pack j false]
   let s0 := run init sends
   let acts : List Ev := (List.zip (List.range gs.length) gs).flatMap fun (j, g, a) =>
-    actEvents j g ((s0.reqs j).nonce.getD 0) a
+    actEvents verify j g ((s0.reqs j).nonce.getD 0) a
   let s1 := run s0 acts
   (List.zip (List.range gs.length) gs).map fun (j, g, a) =>
     if a = .race then (g, "any") else
@@ -435,37 +451,52 @@ def connOutcomes (gs : List (Nat × Act)) : List (Nat × String) :=
     | .waiting => (g, "hang")
     | _ => (g, "err")
 
-def stepNet (deadline : Bool) (peers reqs : String) : String :=
+/-- a peer kind whose dial or handshake does not return by itself -/
+def Dial.stalls : Dial → Bool
+  | .silent => true
+  | .blackhole => true
+  | _ => false
+
+def stepNet (deadline dialB verify : Bool) (peers reqs : String) : String :=
   match (peers.splitOn ",").mapM parseDial, (reqs.splitOn ",").mapM parseReq with
   | some ps, some rs =>
     let np := ps.length
     if rs.any (fun r => r.1 ≥ np) then "bad-op" else
     let idx := List.zip (List.range rs.length) rs
     let dialOf := fun (p : Nat) => (ps.getD p (.refused, false)).1
-    -- requests to silent peers are issued first, then the others, then one probe per answering peer
-    let first := idx.filter fun (_, p, _) => dialOf p = .silent
-    let rest := idx.filter fun (_, p, _) => dialOf p ≠ .silent
+    let hasBh := ps.any fun (d, _) => d = .blackhole
+    -- a scenario with a black-holed peer starts with one warm-up request per answering peer (the node is
+    -- CONNECTED to them when the black hole is asked); then: requests to silent / black-holed peers are
+    -- issued first, then the others, then one probe per answering peer
+    let warm : List (Nat × Nat × Act) := if hasBh then
+      (List.zip (List.range np) ps).filterMap fun (p, _, probe) => if probe then some (rs.length + np + p, p, Act.reply) else none
+      else []
+    let first := idx.filter fun (_, p, _) => (dialOf p).stalls
+    let rest := idx.filter fun (_, p, _) => !(dialOf p).stalls
     let probes : List (Nat × Nat × Act) :=
       (List.zip (List.range np) ps).filterMap fun (p, _, probe) => if probe then some (rs.length + p, p, Act.reply) else none
-    let order := first ++ rest ++ probes
+    let order := warm ++ first ++ rest ++ probes
     let hevs := order.map fun (g, p, _) => HEv.call g p (dialOf p)
-    let outs := (hrun deadline {} hevs).2
+    let outs := (hrun deadline dialB {} hevs).2
     let handed := order.filter fun (g, p, _) => outs.contains (.handed g p)
     let perPeer := (List.range np).flatMap fun p =>
-      connOutcomes ((handed.filter fun (_, q, _) => q = p).map fun (g, _, a) => (g, a))
+      connOutcomes verify ((handed.filter fun (_, q, _) => q = p).map fun (g, _, a) => (g, a))
     let outcome := fun (g : Nat) => match perPeer.find? (fun e => e.1 = g) with
       | some e => e.2
       | none => "err"
     let res := (List.range rs.length).map outcome
     let pr := probes.map fun (g, _, _) => outcome g
-    s!"res={joinOr res} probes={joinOr pr}"
+    let wm := warm.map fun (g, _, _) => outcome g
+    s!"res={joinOr res} probes={joinOr pr}" ++ (if hasBh then s!" warm={joinOr wm}" else "")
   | _, _ => "bad-op"
 
-def driverStep (deadline : Bool) (line : String) : String :=
+/-- `deadline`, `dialB`: the handshake / the dial in handleCallReq is bounded; `verify`: decodePipe drops a
+frame whose signature does not verify (the three are regenerated facts in the driver) -/
+def driverStep (deadline dialB verify : Bool) (line : String) : String :=
   match words line with
   | ["disp", evs] => stepDisp evs
   | ["obj", ops] => stepObj ops
-  | ["net", peers, reqs] => stepNet deadline peers reqs
+  | ["net", peers, reqs] => stepNet deadline dialB verify peers reqs
   | _ => "bad-op"
 
 end Dos.Dispatch
